@@ -35,7 +35,6 @@ CHECKS = [
               "over leaf digests) comes from Cafs.tla",
          technique="TLA+ model checking (TLC) + replay of TLC-generated Put histories + independent hash oracle"),
     dict(id="C03",
-         category="fault_enumeration",
          text="TLC enumerates (object length x damaged blob x damage kind) and derives from Cafs.tla the outcomes each read "
               "may have; each case is applied to the real blob store and observed through every read style of pkg/cafs",
          design_ref="§3 C03",
